@@ -13,7 +13,7 @@
    Css/RoundTripSep.v, Css/RoundTripList.v, Css/RoundTripBuild.v, Css/TokWfLex.v,
    Css/TokWfBuild.v. *)
 From Verif Require Import Css.Ser Css.RetokSpec Css.SerWf Css.SerProofs Css.RoundTripTok Css.RoundTripSep
-  Css.RoundTripList Css.RoundTripBuild Css.TokWfLex Css.TokWfBuild.
+  Css.RoundTripList Css.RoundTripBuild Css.TokWfLex Css.TokWfBuild Css.SerCompound Css.SerCompoundProofs.
 From Coq Require Import List NArith Bool.
 Import ListNotations.
 Open Scope N_scope.
@@ -169,3 +169,73 @@ Example C20_example_roundtrip :
   | _ => False
   end.
 Proof. vm_compute. reflexivity. Qed.
+
+(* ------------------------------------------------------------------ parsed rules and declarations (Css/SerCompound.v) *)
+
+(* A qualified rule or an at-rule, serialized by the model of its serializeTo,
+   tokenizes back (up to comments / positions) to exactly: [the at-keyword,]
+   the prelude, then the {} block holding the content -- or, for an at-rule
+   WITHOUT block, a semicolon.  Nothing fuses between the at-keyword and the
+   prelude or between the prelude and the end of the rule; all preludes and
+   contents, no bound on length / nesting. *)
+Theorem C20_rule_tokenizes_back : forall c s,
+  is_rule c = true -> compound_wf c = true -> ser_compound c = Ok s ->
+  norm (tokenize true s) = norm (compound_tokens c).
+Proof. intros c s Hr Hw Hs. rewrite <- norm_rule_tokens. exact (compound_tokenizes_back c s Hr Hw Hs). Qed.
+Print Assumptions C20_rule_tokenizes_back.
+
+(* `@x ... {}` and `@x ... ;` stand for different token lists (block present or absent) *)
+Theorem C20_empty_block_is_not_statement : forall kw p,
+  compound_tokens (CAtRule kw p (Some [])) <> compound_tokens (CAtRule kw p None).
+Proof. exact empty_block_is_not_statement. Qed.
+Print Assumptions C20_empty_block_is_not_statement.
+
+(* The full statement for compounds (reading back with the specification
+   parser `read_back`, declarations included) is not proved; it is evaluated
+   on every compound case of a run (Check/C20.v code 10). *)
+Definition C20_compound_roundtrip_statement : Prop := forall c s,
+  compound_wf c = true ->
+  read_back c (norm (compound_tokens c)) = Some (norm_compound c) ->    (* c is what a parser returns *)
+  ser_compound c = Ok s ->
+  read_back c (norm (tokenize true s)) = Some (norm_compound c).
+
+(* for rules it follows from the theorem above *)
+Theorem C20_compound_roundtrip_partial : forall c s,
+  is_rule c = true -> compound_wf c = true ->
+  read_back c (norm (compound_tokens c)) = Some (norm_compound c) ->
+  ser_compound c = Ok s ->
+  read_back c (norm (tokenize true s)) = Some (norm_compound c).
+Proof. intros c s Hr Hw Hp Hs. rewrite (C20_rule_tokenizes_back c s Hr Hw Hs). exact Hp. Qed.
+Print Assumptions C20_compound_roundtrip_partial.
+
+Module C20CompoundExamples.
+Import Coq.Strings.String.
+Local Open Scope string_scope.
+Local Open Scope list_scope.
+Local Open Scope N_scope.
+(* inhabited: @media/**/screen{} (comment skipped: a separator is written),
+   @page :first {} (empty block) against @page :first ; , a declaration *)
+Definition ex_media : compound := CAtRule (cps "media") [TIdent p0 (cps "screen")] (Some []).
+Definition ex_page (b : option (list token)) : compound :=
+  CAtRule (cps "page") [TWhitespace p0 [32]; TLiteral p0 [58]; TIdent p0 (cps "first"); TWhitespace p0 [32]] b.
+Definition ex_decl : compound := CDecl (cps "color") [TWhitespace p0 [32]; TIdent p0 (cps "red"); TWhitespace p0 [32]] true.
+
+Example C20_example_media : ser_compound ex_media = Ok (cps "@media/**/screen{}").
+Proof. vm_compute. reflexivity. Qed.
+Example C20_example_compounds :
+  forallb (fun c => match ser_compound c with
+                    | Ok s => match read_back c (norm (tokenize true s)) with
+                              | Some c' => true
+                              | None => false
+                              end
+                    | _ => false
+                    end) [ex_media; ex_page (Some []); ex_page None; ex_decl] = true.
+Proof. vm_compute. reflexivity. Qed.
+Example C20_example_page_block :
+  (ser_compound (ex_page (Some [])), ser_compound (ex_page None)) = (Ok (cps "@page :first {}"), Ok (cps "@page :first ;")).
+Proof. vm_compute. reflexivity. Qed.
+Example C20_example_hyp_inhabited :
+  read_back ex_media (norm (compound_tokens ex_media)) = Some (norm_compound ex_media)
+  /\ read_back ex_decl (norm (compound_tokens ex_decl)) = Some (norm_compound ex_decl).
+Proof. split; vm_compute; reflexivity. Qed.
+End C20CompoundExamples.
